@@ -22,8 +22,10 @@ VARIABLES kind,   \* ghost: kind of the last call
 mcVars == <<adsrVars, kind, cont, prog>>
 
 Cap == 4 * M
+Proj == <<phase, acc, val, step.a, step.d, step.r, S>>
 
-MCInit == AdsrInit(CHOOSE i \in StepsA : TRUE) /\ kind = "new" /\ cont = FALSE /\ prog = 0
+MCInit == /\ AdsrInit(CHOOSE i \in StepsA : \A j \in StepsA : i <= j) /\ kind = "new" /\ cont = FALSE /\ prog = 0
+          /\ (Emit => PrintT(<<"INIT", ToJson(<<adsrVars, Proj>>)>>))
 
 TTick ==
   /\ Tick /\ kind' = "tick" /\ cont' = TRUE
@@ -38,7 +40,6 @@ TSetD == \E i \in StepsD : SetStep("d", i) /\ kind' = "set" /\ UNCHANGED <<cont,
 TSetR == \E i \in StepsR : SetStep("r", i) /\ kind' = "set" /\ UNCHANGED <<cont, prog>>
 TSetS == \E s \in Sustains : SetSustain(s) /\ kind' = "set" /\ cont' = FALSE /\ UNCHANGED prog
 
-Proj == <<phase, acc, val>>
 Lbl(op) == Emit => PrintT(<<"EDGE", ToJson(<<adsrVars, op, adsrVars', Proj'>>)>>)
 
 MCNext ==
@@ -52,6 +53,7 @@ MCNext ==
 
 MCSpec == MCInit /\ [][MCNext]_mcVars /\ WF_mcVars(TTick)
 MCView == <<adsrVars, cont, prog>>
+GView == adsrVars          \* for graph emission: the ghosts do not matter
 
 TypeOK ==
   /\ phase \in {"rest", "attack", "decay", "sustain", "release"}
